@@ -162,16 +162,31 @@ fn check_reset(fmt: u8, ff: usize, lead_words: usize) -> Option<(String, String)
         let mut h = conforming[0].packet.rdh.clone();
         h.memory_size = (64 + lead_payload.len()) as u16;
         h.offset_next = h.memory_size;
-        lv.verif_step((val::rdh_from(&h.encode()), lead_payload.clone(), 0));
-        let before = lv.verif_fsm_state_id();
-        let bad = build_payload(fmt, 3, ff);
-        let mut h2 = conforming[0].packet.rdh.clone();
-        h2.pages_counter = 1;
-        h2.memory_size = (64 + bad.len()) as u16;
-        h2.offset_next = h2.memory_size;
-        lv.verif_step((val::rdh_from(&h2.encode()), bad, 0x1000));
-        let after = lv.verif_fsm_state_id();
-        let _ = rx.try_iter().count();
+        // the sequence lead-in, rejected payload is played twice on the same link: the second rejection must reset the
+        // protocol state like the first one
+        let mut before = 0;
+        let mut after = 0;
+        let mut second_reported = true;
+        for round in 0..2u64 {
+            lv.verif_step((val::rdh_from(&h.encode()), lead_payload.clone(), round * 0x800));
+            before = lv.verif_fsm_state_id();
+            let _ = rx.try_iter().count();
+            let bad = build_payload(fmt, 3, ff);
+            let mut h2 = conforming[0].packet.rdh.clone();
+            h2.pages_counter = 1;
+            h2.memory_size = (64 + bad.len()) as u16;
+            h2.offset_next = h2.memory_size;
+            lv.verif_step((val::rdh_from(&h2.encode()), bad, 0x1000 + round * 0x800));
+            let a = lv.verif_fsm_state_id();
+            after = after.max(a);
+            let n = val::error_texts(&rx.try_iter().collect::<Vec<_>>()).iter().filter(|m| m.contains("Payload error following RDH")).count();
+            if n != 1 {
+                second_reported = false;
+            }
+        }
+        if !second_reported {
+            after = 0xFF; // reported below as a state problem with its own wording
+        }
         // now a fresh conforming HBF on this link must be accepted by the payload checks
         let mut msgs = Vec::new();
         let mut lc2 = lc.clone();
@@ -189,8 +204,11 @@ fn check_reset(fmt: u8, ff: usize, lead_words: usize) -> Option<(String, String)
             if lead_words > 0 && before == 0 {
                 return Some(("reset:harness".into(), "lead-in did not move the FSM".into()));
             }
+            if after == 0xFF {
+                return Some(("reset:repeated-padding-error-not-reported-once".into(), "each of two rejected payloads on one link must be reported exactly once".into()));
+            }
             if after != 0 {
-                return Some(("reset:state-not-initial".into(), format!("FSM state after the padding error is {after}, not the initial state (was {before} before)")));
+                return Some(("reset:state-not-initial".into(), format!("FSM state after a padding error (first or second on the link) is {after}, not the initial state (was {before} before)")));
             }
             // RDH running errors (page counter) are expected from the artificial page sequence; payload errors are not
             let payload_errs: Vec<&String> = msgs.iter().filter(|m| !m.contains("[E11]")).collect();
